@@ -778,7 +778,13 @@ enum BoundKind {
     Activity,
 }
 
-fn bound_kind_of(variable: &str, clauses: &[WhereClause]) -> Option<BoundKind> {
+/// Every Core kind the WHERE block binds `variable` to, nested blocks included.
+///
+/// All of them, not the first: a target bound as a Concept inside an
+/// `OPTIONAL`/`UNION` block and as an Assertion by a later pattern is still an
+/// Assertion in the solutions that pattern produces, so the guards below must
+/// hold for each kind the target can have.
+fn bound_kinds_of(variable: &str, clauses: &[WhereClause], kinds: &mut Vec<BoundKind>) {
     for clause in clauses {
         let found = match clause {
             WhereClause::Assertion { variable: v, .. } if v == variable => {
@@ -791,15 +797,17 @@ fn bound_kind_of(variable: &str, clauses: &[WhereClause]) -> Option<BoundKind> {
                 variable: Some(v), ..
             } if v == variable => Some(BoundKind::Proposition),
             WhereClause::Not(inner) | WhereClause::Optional(inner) | WhereClause::Union(inner) => {
-                bound_kind_of(variable, inner)
+                bound_kinds_of(variable, inner, kinds);
+                None
             }
             _ => None,
         };
-        if found.is_some() {
-            return found;
+        if let Some(kind) = found
+            && !kinds.contains(&kind)
+        {
+            kinds.push(kind);
         }
     }
-    None
 }
 
 /// Rejects the UPDATEs an engine must never be asked to perform.
@@ -808,20 +816,30 @@ fn guard_update(statement: &UpdateStatement) -> Result<(), &'static str> {
         ElementRef::Handle(name) => Some(name.as_str()),
         _ => None,
     };
-    let kind = match (target_var, &statement.where_clauses) {
-        (Some(var), Some(clauses)) => bound_kind_of(var, clauses),
-        _ => None,
+    let mut bound = Vec::new();
+    if let (Some(var), Some(clauses)) = (target_var, &statement.where_clauses) {
+        bound_kinds_of(var, clauses, &mut bound);
+    }
+    // An unbound (or untyped) target is checked as "kind unknown", once.
+    let kinds: Vec<Option<BoundKind>> = if bound.is_empty() {
+        vec![None]
+    } else {
+        bound.into_iter().map(Some).collect()
     };
 
     for action in &statement.actions {
         match action {
             UpdateAction::SetFields(assignments) => {
                 for (field, _) in assignments {
-                    guard_immutable_field(field, kind)?;
+                    for kind in &kinds {
+                        guard_immutable_field(field, *kind)?;
+                    }
                 }
             }
             UpdateAction::SetStructural(_) | UpdateAction::UnsetStructural(_) => {
-                guard_structural_mutation(kind)?
+                for kind in &kinds {
+                    guard_structural_mutation(*kind)?;
+                }
             }
             _ => {}
         }
